@@ -10,6 +10,8 @@ import z3
 from contracts.common import *  # noqa
 from contracts import common
 from pyvc import driver
+from contracts import tokens_c
+from contracts.tokens_c import unit_quoted_string, unit_instruction_pointer, unit_angle_char, unit_get_as_str, unit_string_concat  # noqa
 from contracts.c14 import unit_closed as unit_bk_tables, unit_encode as unit_bk_encode, unit_charliteral as unit_bk_charliteral  # noqa
 
 ID = "C06"
@@ -536,6 +538,7 @@ def units(tier):
         us.append(("wordlist[%d]" % n, "unit_word_list", dict(n=n)))
     us.append(("directive-typing", "unit_typing", {}))
     us.append(("bounded-escapes", "unit_bounded_escapes", dict(tier=tier)))
+    us += tokens_c.all_units()          # what a string operand denotes before it reaches the codec: quoted text, <n> characters, chunk order
     # the codec contract the string directives assume (encode succeeds iff every character is in the charset, bytes pointwise, otherwise the
     # error is reported) is DISCHARGED for the default 'bk' charset by C14's obligations, re-run here; the other charsets are stdlib codecs
     us += [("bk-tables", "unit_bk_tables", {}), ("bk-encode", "unit_bk_encode", {}), ("bk-charliteral", "unit_bk_charliteral", {})]
@@ -552,6 +555,8 @@ def replay(o, tree):
     w = o.get("witness") or {}
     if o.get("kind") == "bounded":
         return None
+    if cfg.get("kind") == "anglechar":
+        return tokens_c.replay_anglechar(o, tree)
     if cfg.get("kind") == "get_as_int":
         if not w.get("v_isint", True):
             return None
